@@ -200,7 +200,11 @@ func (w *World) structSort(n *types.Named, st *types.Struct) string {
 	w.dts[name] = d
 	for i := 0; i < st.NumFields(); i++ {
 		f := st.Field(i)
-		d.Fields = append(d.Fields, dtField{f.Name(), w.sortOf(f.Type()), f.Type()})
+		fname := f.Name()
+		if fname == "_" {
+			fname = fmt.Sprintf("_blank%d", len(d.Fields)) // blank fields are distinct accessors
+		}
+		d.Fields = append(d.Fields, dtField{fname, w.sortOf(f.Type()), f.Type()})
 	}
 	w.dtOrder = append(w.dtOrder, name)
 	return name
